@@ -25,6 +25,18 @@ THEOREMS: dict[str, list[str]] = {
         "Rbacx.C05.c05_attr_iff", "Rbacx.C05.c05_attrs_iff", "Rbacx.C05.c05_missing_attr_fails", "Rbacx.C05.c05_engine_flag",
         "Rbacx.C05.c05_path_reference", "Rbacx.C05.c05_path_compiled",
     ],
+    "C07": [
+        "Rbacx.C07.c07_ok_iff_all_met", "Rbacx.C07.c07_first_unmet_challenge", "Rbacx.C07.c07_positive_has_no_challenge",
+        "Rbacx.C07.c07_guard_gate", "Rbacx.C07.c07_guard_pass", "Rbacx.C07.c07_custom_negative_honoured",
+        "Rbacx.C07.c07_deny_stays_deny", "Rbacx.C07.c07_other_effect_ignored", "Rbacx.C07.c07_truthy_rows",
+        "Rbacx.C07.c07_level_row", "Rbacx.C07.c07_level_illtyped", "Rbacx.C07.c07_reauth_row", "Rbacx.C07.c07_not_a_number",
+        "Rbacx.C07.c07_http_row", "Rbacx.C07.c07_consent_keyed_row", "Rbacx.C07.c07_unknown_type_ignored",
+    ],
+    "C20": [
+        "Rbacx.C20.c20_downstream_iff_allowed", "Rbacx.C20.c20_single_403", "Rbacx.C20.c20_body_is_generic",
+        "Rbacx.C20.c20_headers_only_when_enabled", "Rbacx.C20.c20_errors_block_downstream", "Rbacx.C20.c20_passthrough",
+        "Rbacx.C20.c20_guard_injected", "Rbacx.C20.c20_obligation_failed_is_403",
+    ],
 }
 
 PROPERTY_IMPORTS = ["Rbacx.Properties.C02"]
